@@ -454,13 +454,17 @@ def h_pk_prim(prop, lo=0, hi=13, timeout=900):
                    functions=["packed::pattern::{is_prefix,is_equal_raw}", "packed::pattern::Pattern::is_prefix_raw"])
 
 
-def h_pk_teddy(prop, case, facts, length, off, w, pad, timeout=2400, mem_gb=20):
+def h_pk_teddy(prop, case, facts, length, off, w, pad, timeout=2400, mem_gb=20, end=None):
     f = facts[case.key]
     name = "h_pkteddy_%s_l%d_o%d_w%d_p%02x" % (case.name, length, off, w, pad)
     body = "    t::pk_teddy::<%s, %d, %d, %d, %d>();" % (case.mod, length, off, w, pad)
+    if end is not None:
+        # span 0..end inside a `length`-byte haystack (C10)
+        name += "_e%d" % end
+        body = "    t::pk_teddy_end::<%s, %d, %d, %d, %d, %d>();" % (case.mod, length, end, off, w, pad)
     schema = [("w", ("bytes", w))]
-    meta = dict(template="pk_teddy", replay_template="pk_teddy", kind="packed:" + f["imp"], LEN=length, OFF=off, W=w,
-                PAD=pad, fixed_inputs={"len": length, "off": off, "pad": pad},
+    meta = dict(template="pk_teddy" if end is None else "pk_teddy_end", replay_template="pk_teddy", kind="packed:" + f["imp"], LEN=length, OFF=off, W=w,
+                PAD=pad, fixed_inputs={"len": length, "off": off, "pad": pad, "s": 0, "end": length if end is None else end},
                 symbolic=["%d window bytes at offset %d of a %d-byte exactly sized haystack" % (w, off, length), "span start <= window offset"],
                 note="bytes outside the window are the fixed pad byte: arbitrary multi-match contents of a full vector are outside this harness")
     # loops: window copy w, oracle start loop length+1 ...
@@ -976,13 +980,23 @@ def _schedule(prop, tier, seed):
             for mkk in ("std", "lf", "ll"):
                 cases += seeded_cases("c10" + mkk, seed, 5, mkk)
             pk_cases.append(PackedCase("c10lf_t1_slow", ["a", "bc"], mk="lf", force="teddy128"))
-        cases += pk_cases
+        # Teddy's vector code on a span that ends inside the haystack (seeded change C10c)
+        td_cases = [PackedCase("c10lf_t2", ["ab", "bcd"], mk="lf", force="teddy128")]
+        cases += pk_cases + td_cases
 
         def mk(facts):
             hs = []
             for c in cases:
                 if c in pk_cases:
                     hs.append(h_pk_span(prop, c, facts, n=4 if quick else 5))
+                    continue
+                if c in td_cases:
+                    # span = exactly one vector's worth (the minimum the vector loop accepts); the window
+                    # straddles span.end, three more haystack bytes follow it
+                    end = 16 + facts[c.key]["teddy_bytes"] - 1
+                    hs.append(h_pk_teddy(prop, c, facts, end + 3, end - 2, 4, 0x5a, end=end))
+                    if not quick:
+                        hs.append(h_pk_teddy(prop, c, facts, end + 4, end - 1, 4, 0x5a, end=end + 1))
                     continue
                 h = h_span(prop, c, facts, "dfa", n=5 if quick else 7, an=EITHER if c not in pf_cases else UN)
                 if c in pf_cases:
@@ -1281,6 +1295,13 @@ def _schedule(prop, tier, seed):
         if not quick:
             # measured: 32 patterns at N=5 did not finish in 40 min; thorough only, 24 patterns, N=4
             cases.append(PackedCase(prop.lower() + "ll_rk_many", many, mk="ll", force="rk"))
+        # the same concern at a smaller size: 24 patterns of one and two bytes, every one supplied twice
+        # (12 distinct), shuffled; haystacks up to 3 bytes (seeded C06a). Measured: > 14 min at 3 GB, i.e.
+        # over the 900 s a quick check may take, so it stays in the thorough tier as well
+        short = ["a", "b", "c", "d", "ab", "ba", "cd", "dc", "ac", "bd", "da", "cb"] * 2
+        random.Random(777).shuffle(short)
+        if prop == "C06" and (not quick or __import__("os").environ.get("VERIF_PROBE_MANY12")):
+            cases.append(PackedCase(prop.lower() + "ll_rk_many12", short, mk="ll", force="rk"))
         # Teddy searchers: below their minimum length find_in falls back to Rabin-Karp
         cases.append(PackedCase(prop.lower() + "lf_t1_slow", ["a", "bc"], mk="lf", force="teddy128"))
         # t1: a fingerprint byte with bit 7 set (pshufb zeroes such index lanes: seeded C06d) next to ASCII ones;
@@ -1334,6 +1355,9 @@ def _schedule(prop, tier, seed):
                     continue
                 n = 6 if quick else 8
                 if prop == "C15" and quick and not any(k in c.name for k in ("basic", "long", "hi", "slow")):
+                    continue
+                if "many12" in c.name:
+                    hs.append(h_pk_find(prop, c, facts, n=3))
                     continue
                 if "many" in c.name:
                     h = h_pk_find(prop, c, facts, n=4, timeout=5400)
@@ -1545,7 +1569,10 @@ def _schedule(prop, tier, seed):
                 cases.append(Case("c11%s_%s" % (mkk, nm), pats, mk=mkk, ci=True))
         pf_cases = [Case("c11lf_pf_r2", ["abc", "ab"], mk="lf", ci=True, pf=True),
                     Case("c11std_pf_s2", ["zq", "zj"], mk="std", ci=True, pf=True),
-                    Case("c11std_pf_r2b", ["aZ", "bZ"], mk="std", ci=True, pf=True)]
+                    Case("c11std_pf_r2b", ["aZ", "bZ"], mk="std", ci=True, pf=True),
+                    # one rare letter at two different offsets: the larger offset must reach both of its
+                    # cases, whichever pattern set it last (seeded C11c)
+                    Case("c11lf_pf_roff", ["eZ", "abcZ"], mk="lf", ci=True, pf=True)]
         cases += pf_cases
         for mkk in ("std", "lf", "ll"):
             cases += seeded_cases("c11" + mkk, seed, (2 if mkk != "ll" else 1) if quick else 5, mkk, ci=True)
